@@ -46,6 +46,8 @@ MACRO_TEMPLATES = [
     '\\%s\n\n{a}', '\\%s{\\%s{a}}{\\%s}',
     '\\%s{$x$}{\\[y\\]}', '\\%s[{]}]{a\\par b}', '\\%s{a & b \\\\ c}', '\\begin{itemize}\\item \\%s\\end{itemize}',
     '\\%s{\\begin{center}x\\end{center}}', '\\%s~--``x\'\'', '\\%s{}{}{}{}{}{}', '\\%s*[o][p]{a}{b}',
+    # argument text from every character class (upper/lower case, digits, punctuation, non-ASCII), in text and in math
+    '\\%s{Ab0 9.,;:!?()+-=/*<>|@}', '$\\%s{X1z}{0}$', '\\%s{\u00e9 \u00df \\alpha 7}{\u03a9}', '\\%s{1}{2}{3}',
 ]
 ENV_TEMPLATES = [
     '\\begin{%s}\\end{%s}', '\\begin{%s}a\\end{%s}', '\\begin{%s}{c}a & b \\\\ c & d\\end{%s}',
@@ -83,7 +85,7 @@ def plan(tier, seed):
 def floors(tier):
     return {'evaluations': 60000, 'distinct_nontrivial': 20000, 'conversions': 60000,
             'histkeys:macro_name': 1000, 'histkeys:env_name': 50, 'histkeys:option_pair': 110,
-            'histkeys:template': 44, 'scaling_conversions_timed': 300, 'histkeys:scaling_family': 30}
+            'histkeys:template': 48, 'scaling_conversions_timed': 300, 'histkeys:scaling_family': 30}
 
 
 def setup(rec):
